@@ -78,16 +78,16 @@ func c01Scenarios() []c01Scenario {
 	o2 := []c01Op{c01OpOpen(), c01OpOpen()}
 	o3 := []c01Op{c01OpOpen(), c01OpOpen(), c01OpOpen()}
 	return []c01Scenario{
-		{name: "client/full", side: clientSide, ops: c01FullAlphabet(clientSide), depthQ: 3, depthT: 4},
-		{name: "server/full", side: serverSide, ops: c01FullAlphabet(serverSide), depthQ: 3, depthT: 4},
+		{name: "client/full", side: clientSide, ops: c01FullAlphabet(clientSide), depthQ: 4, depthT: 5},
+		{name: "server/full", side: serverSide, ops: c01FullAlphabet(serverSide), depthQ: 4, depthT: 5},
 		// two client streams starving each other on both windows
-		{name: "client/windows2", side: clientSide, pre: o2, depthQ: 5, depthT: 7, ops: []c01Op{
+		{name: "client/windows2", side: clientSide, pre: o2, depthQ: 6, depthT: 8, ops: []c01Op{
 			c01OpData(1, 16390, false), c01OpData(1, 40000, true), c01OpData(3, 1, false), c01OpData(3, 40000, false), c01OpEnd(3),
 			c01OpWUConn(1), c01OpWUConn(65535), c01OpWUStr(1, 1), c01OpWUStr(1, 16384), c01OpWUStr(3, 65535),
 			c01OpSettings(0, 0), c01OpSettings(1, 0), c01OpSettings(65535, 0), c01OpSettings(65535, 1), c01OpSettings(1<<20, 0), c01OpSettings(1<<20, 1),
 			c01OpIdle(), c01OpTick()}},
 		// three client streams: round-robin order, cleanup in the middle, every re-activation order
-		{name: "client/roundrobin3", side: clientSide, pre: o3, depthQ: 5, depthT: 7, ops: []c01Op{
+		{name: "client/roundrobin3", side: clientSide, pre: o3, depthQ: 6, depthT: 8, ops: []c01Op{
 			c01OpData(1, 40000, false), c01OpData(3, 40000, false), c01OpData(5, 16384, false), c01OpData(5, 9, true),
 			c01OpWUConn(16384), c01OpWUConn(65535), c01OpWUStr(3, 16384),
 			c01OpSettings(16384, 0), c01OpSettings(1<<31-1, 0), c01OpSettings(1<<31-1, 1), c01OpSettings(1<<31-1, 2), c01OpSettings(1<<31-1, 3), c01OpSettings(1<<31-1, 4), c01OpSettings(1<<31-1, 5),
@@ -98,10 +98,10 @@ func c01Scenarios() []c01Scenario {
 			c01OpCleanup(1, false), c01OpCleanup(1, true), c01OpCleanup(3, true), c01OpWUConn(65535), c01OpWUStr(1, 16384), c01OpSettings(0, 0), c01OpSettings(1<<20, 0),
 			c01OpInGoAway(), c01OpGoAway(), c01OpIdle(), c01OpTick()}},
 		// narrow alphabets, deep: long starvation / credit sequences
-		{name: "client/deep-starve", side: clientSide, pre: o2, depthQ: 6, depthT: 9, ops: []c01Op{
+		{name: "client/deep-starve", side: clientSide, pre: o2, depthQ: 7, depthT: 10, ops: []c01Op{
 			c01OpData(1, 40000, false), c01OpData(3, 40000, true), c01OpWUConn(16384), c01OpWUStr(1, 16384), c01OpWUStr(3, 1),
 			c01OpSettings(0, 0), c01OpSettings(65535, 0), c01OpSettings(65535, 1), c01OpIdle(), c01OpTick()}},
-		{name: "server/deep-trailers", side: serverSide, pre: o2, depthQ: 6, depthT: 9, ops: []c01Op{
+		{name: "server/deep-trailers", side: serverSide, pre: o2, depthQ: 7, depthT: 10, ops: []c01Op{
 			c01OpDataS(1, 40000), c01OpDataS(3, 16390), c01OpTrailers(1, true), c01OpTrailers(3, false), c01OpWUConn(16384), c01OpWUStr(1, 16384),
 			c01OpSettings(1, 0), c01OpSettings(1<<20, 0), c01OpSettings(1<<20, 1), c01OpCleanup(3, true), c01OpIdle(), c01OpTick()}},
 		// CONTINUATION: a 40 KiB header list between other streams' frames
@@ -112,7 +112,7 @@ func c01Scenarios() []c01Scenario {
 			c01OpOpen(), c01OpOpenBig(), c01OpDataS(1, 16390), c01OpDataS(3, 9), c01OpTrailers(1, true), c01OpTrailers(3, false), c01OpAbort(true), c01OpSettings(1, 0), c01OpSettings(1<<20, 0),
 			c01OpGoAway(), c01OpIdle(), c01OpTick()}},
 		// server: trailers queued behind window-blocked data, cancel while queued, draining
-		{name: "server/trailers2", side: serverSide, pre: o2, depthQ: 5, depthT: 7, ops: []c01Op{
+		{name: "server/trailers2", side: serverSide, pre: o2, depthQ: 6, depthT: 8, ops: []c01Op{
 			c01OpDataS(1, 16390), c01OpDataS(1, 40000), c01OpDataS(3, 9), c01OpDataS(3, 16384),
 			c01OpTrailers(1, false), c01OpTrailers(3, true), c01OpCleanup(1, true), c01OpCleanup(3, false),
 			c01OpWUConn(1), c01OpWUConn(65535), c01OpWUStr(1, 65535), c01OpWUStr(3, 1),
@@ -181,7 +181,7 @@ func TestVerif_C01_Loopy(t *testing.T) {
 }
 
 func c01Describe(r *vk.Run) {
-	common := "a FRESH real loopyWriter (newLoopyWriter) with a real framer (newFramer, 32 KiB private write buffer) over an in-memory conn and a real controlBuffer is built for every history and driven exactly as run() drives it: event item(x) = controlBuf.put(x); get(false); handle(x); processData(); event tick = one processData() with an empty control buffer; event idle = processData() until it reports empty, then Flush (run() would block now). Alphabet per side (client: clientHeaders; server: registerStream+serverHeaders): open, openBig (40 KiB header list, once), data(s,n,endStream) with n in {0,1,9,16384,16390,40000} as dataFrame{h=5-byte gRPC prefix, data=mem.BufferSlice of <=12000-byte tracked buffers} with the write quota taken like write() does, end(s) (empty END_STREAM frame of CloseSend), trailers(s,rst), earlyAbort(rst), wuConn(inc) / wuStr(s,inc) with inc in {1,16384,65535}, settings(INITIAL_WINDOW_SIZE in {0,1,16384,65535,2^20,2^31-1}) incl. one op variant per order in which applySettings' map range can re-activate waiting streams, cleanup(s,rst), incomingGoAway, goAway, idle, tick; at most 3 streams (ids 1,3,5 in order). Scenarios: the full alphabet (depth 3 quick / 4 thorough) and focused sub-alphabets from preambles with 2-3 open streams (depth 5-6 quick / 7-9 thorough). BFS with state merging on a key made of loopy's private fields (sendQuota, oiws, draining, per established stream: state, bytesOutStanding, write quota, every queued item's remaining header/payload bytes, endStream, processing flag; activeStreams order) plus the ledger state. Every byte written (flushed or still in the framer's buffer) is re-parsed after every event by an independent http2.Framer + hpack.Decoder. A distinct state (by that key) is a non-trivial case. "
+	common := "a FRESH real loopyWriter (newLoopyWriter) with a real framer (newFramer, 32 KiB private write buffer) over an in-memory conn and a real controlBuffer is built for every history and driven exactly as run() drives it: event item(x) = controlBuf.put(x); get(false); handle(x); processData(); event tick = one processData() with an empty control buffer; event idle = processData() until it reports empty, then Flush (run() would block now). Alphabet per side (client: clientHeaders; server: registerStream+serverHeaders): open, openBig (40 KiB header list, once), data(s,n,endStream) with n in {0,1,9,16384,16390,40000} as dataFrame{h=5-byte gRPC prefix, data=mem.BufferSlice of <=12000-byte tracked buffers} with the write quota taken like write() does, end(s) (empty END_STREAM frame of CloseSend), trailers(s,rst), earlyAbort(rst), wuConn(inc) / wuStr(s,inc) with inc in {1,16384,65535}, settings(INITIAL_WINDOW_SIZE in {0,1,16384,65535,2^20,2^31-1}) incl. one op variant per order in which applySettings' map range can re-activate waiting streams, cleanup(s,rst), incomingGoAway, goAway, idle, tick; at most 3 streams (ids 1,3,5 in order). Scenarios: the full alphabet (depth 4 quick / 5 thorough) and nine focused sub-alphabets of 10-20 ops started from 0-3 open streams (depth 5-7 quick / 7-10 thorough). BFS with state merging on a key made of loopy's private fields (sendQuota, oiws, draining, per established stream: state, bytesOutStanding, write quota, every queued item's remaining header/payload bytes, endStream, processing flag; activeStreams order) plus the ledger state. Every byte written (flushed or still in the framer's buffer) is re-parsed after every event by an independent http2.Framer + hpack.Decoder. A distinct state (by that key) is a non-trivial case. "
 	r.Rule("C01", common+"C01 oracle: connection window = 65535 + sum of wuConn - sum of DATA lengths; stream window = peer INITIAL_WINDOW_SIZE (changed at the position of loopy's SETTINGS ACK) + sum of wuStr(s) - sum of DATA(s); every DATA frame <= 16384 and, when non-empty, <= both windows before it; every HEADERS/CONTINUATION fragment <= 16384, header blocks contiguous and decoding to the header list handed in; every SETTINGS acked.")
 	r.Rule("C02", common+"C02 oracle: per stream the DATA payloads are compared byte by byte with h||data of the messages in put order (prefix at all times; complete at quiescence when both ledger windows are positive); END_STREAM only on the frame that carries the last byte of a stream whose last message was put (client), never on server DATA; trailers only after every DATA byte put before them; nothing after RST_STREAM, only the requested RST_STREAM after trailers / after the writer consumed a cleanupStream (its onWrite hook marks the position); requested RST_STREAM / trailers / HEADERS present at quiescence; every mem.Buffer handed in: never freed twice, never read after its last release, released exactly when its last byte is on the wire or its stream was cleaned up.")
 	r.Rule("C03", common+"C03 oracle, with the LEDGER's windows only: at every idle (quiescent) state no live stream with unsent bytes / pending END_STREAM has both a positive stream window and a positive connection window; a stream made eligible by the previous credit event gets at least one DATA frame before the writer idles; between two consecutive DATA frames of a stream, every other stream that had unsent data and both windows positive all the time gets a DATA frame; in-package after every event: state==active <=> member of activeStreams (no duplicates, no removed streams), state==empty <=> item list empty; processData reaches empty within 10000 calls.")
